@@ -227,7 +227,7 @@ def rand_history(rng, n_ops, names, max_width=5, allow_measure=True):
     def new_circ():
         w = rng.randint(1, max_width)
         fixed = rng.choice([None, None, w, w + rng.randint(0, 2), 0])
-        gs = [rand_gate(rng, w, names) for _ in range(rng.randint(0, 7))]
+        gs = vlib.rand_gate_list(rng, w, rng.randint(0, 8), names)
         if allow_measure and rng.random() < 0.1 and gs:
             gs.insert(rng.randint(0, len(gs)), gspec("MEASURE", [rng.randint(0, w - 1)]))
         i = fresh()
